@@ -148,6 +148,21 @@ impl Workspace {
       Err(err_model_evaluator_is_not_deployed(model_name))
     }
   }
+  /// Verification hook: the `(namespace, name)` pairs of the stored definitions in list order,
+  /// and the sorted key sets of the two indexes and of the deployed model evaluators.
+  #[cfg(dmntk_verif)]
+  #[allow(clippy::type_complexity)]
+  pub fn verif_snapshot(&self) -> (Vec<(String, String)>, Vec<(String, (String, String))>, Vec<(String, (String, String))>, Vec<String>) {
+    let pair = |d: &Arc<Definitions>| (d.namespace().to_string(), d.name().to_string());
+    let definitions = self.definitions.iter().map(pair).collect();
+    let mut by_namespace: Vec<(String, (String, String))> = self.definitions_by_namespace.iter().map(|(k, d)| (k.clone(), pair(d))).collect();
+    by_namespace.sort();
+    let mut by_name: Vec<(String, (String, String))> = self.definitions_by_name.iter().map(|(k, d)| (k.clone(), pair(d))).collect();
+    by_name.sort();
+    let mut evaluators: Vec<String> = self.model_evaluators_by_name.keys().cloned().collect();
+    evaluators.sort();
+    (definitions, by_namespace, by_name, evaluators)
+  }
   /// Utility function that deletes all definitions in workspace.
   fn clear_definitions(&mut self) {
     self.definitions_by_name.clear();
